@@ -247,6 +247,7 @@ func (ch *channel) Receive(ctx async.Context) ([]byte, status.Status) {
 		case ok:
 			return msg, status.OK
 		}
+		verifYield(17)
 
 		select {
 		case <-ctx.Wait():
